@@ -125,7 +125,30 @@ def _uri(f, p, alt):
     return f + "::" + (p[1:] if alt else p)
 
 
+_OBS_CACHE = {}
+
+
 def _observe(alt):
+    """the observation is a function of the bytes of the two files (external links name files relatively), so a
+    state whose files are byte-identical to one already observed — typically after an op that failed without
+    effect — is not observed again"""
+    key = [alt]
+    for f in FILES:
+        try:
+            with open(f, "rb") as fh:
+                key.append(hashlib.md5(fh.read()).hexdigest())
+        except OSError:
+            key.append(None)
+    key = tuple(key)
+    hit = _OBS_CACHE.get(key)
+    if hit is None:
+        if len(_OBS_CACHE) > 4000:
+            _OBS_CACHE.clear()
+        hit = _OBS_CACHE[key] = json.dumps(_observe_raw(alt))
+    return json.loads(hit)
+
+
+def _observe_raw(alt):
     obs = {}
     for f in FILES:
         o = {"exists": os.path.exists(f)}
